@@ -390,12 +390,14 @@ def c13(req, out):
     for N, kind in ((1, 0), (2, 2)):
         lo, up = boxes(N)[0]
         ref = RecProblem(N, lo, up, kind)
-        sr = Solver(ref, SolverParameters(r=2.5, eps=0.02, itersLimit=120))
+        # every documented parameter is exercised: the 2-D runs are given a start point
+        sp = Point(np.array([lo[j] + 0.3137 * (up[j] - lo[j]) for j in range(N)], dtype=np.double), []) if N == 2 else []
+        sr = Solver(ref, SolverParameters(r=2.5, eps=0.02, itersLimit=120, startPoint=sp))
         quiet(sr.DoGlobalIteration, 4)
         quiet(sr.DoGlobalIteration, 3)
         solr, _ = quiet(sr.Solve)
         p = RecProblem(N, lo, up, kind)
-        s = Solver(p, SolverParameters(r=2.5, eps=0.02, itersLimit=120))
+        s = Solver(p, SolverParameters(r=2.5, eps=0.02, itersLimit=120, startPoint=sp))
         a, b, c = Rec(), StopOnly(), ConsoleFullOutputListener(mode='result')
 
         class Derived(Rec):
